@@ -5,6 +5,7 @@ the call and fork over the three possible answers (Continue, Stop, Error(e) with
 `parse_inst` are replaced by models that log the call and fork over Ok(opaque) / Err(Complete) / Err(other state);
 `Action::consume` is inlined from its own MIR; `TypeTracker::track` is logged. The loop is unrolled to K instructions.
 Every resulting path (all answer combinations, all callee outcomes) is checked against the protocol automaton."""
+import re
 import z3
 import sym
 import mir
@@ -52,7 +53,15 @@ def mk_models(log_prefix=""):
         st.events.append(("track", v))
         return sym.UNIT
 
+    def downcast(engine, st, fr, callee, args, ops):
+        """`Box<dyn Error>::downcast::<T>()`: the consumer's error value is opaque, so it may or may not be a T"""
+        ty = re.search(r"downcast::<(.*)>$", callee).group(1)
+        st.events.append(("downcast", ty))
+        inner = sym.Sym(engine.fresh_name("downcast_value"), "binary::parser::State" if ty.split("::")[-1] == "State" else ty)
+        return sym.Fork([(True, sym.Adt("Result", "Ok", [sym.BoxV(inner)]), ("downcast-ok", ty)), (True, sym.Adt("Result", "Err", [args[0]]), ("downcast-err", ty))])
+
     return [
+        (r"::downcast::<.*>$", downcast),
         (r"^<dyn Consumer as Consumer>::initialize$", consumer_cb("initialize")),
         (r"^<dyn Consumer as Consumer>::consume_header$", consumer_cb("header")),
         (r"^<dyn Consumer as Consumer>::consume_instruction$", consumer_cb("instruction")),
@@ -277,6 +286,10 @@ def replay_path(rp, r):
                 hexb += NOP
             elif o == "inst-err":
                 hexb += BAD
+    if any(e[0] == "downcast-ok" for e in r.events):
+        # the path depends on WHAT the consumer's error value is (a downcast of it succeeded): the scripted consumer answers the
+        # error with a boxed parser state ('P') instead of its own error type
+        answers = answers.replace("E", "P")
     cmd = "parse_script %s %s" % (hexb, answers or "C")
     real = rp.ask(cmd)
     real["cmd"] = cmd
@@ -325,6 +338,13 @@ def replay_path(rp, r):
                     result = "Ok" if a == "C" else a
     got = [e.split(" ")[0] for e in real.get("events", [])]
     res = real.get("result", "")
+    if result == "P":
+        # whatever the consumer boxes comes back inside ConsumerError — also when it is itself a parser state
+        if got != exp:
+            return real, "callbacks %s, protocol demands %s" % (got, exp)
+        if not str(res).startswith("ConsumerError(ConsumerStopRequested"):
+            return real, "the consumer answered Error(Box<ParseState::ConsumerStopRequested>) to callback #%d; result %s, protocol demands ConsumerError carrying that value" % (ai - 1, res)
+        return real, None
     want = {"S": "ConsumerStopRequested", "E": "ConsumerError", "Ok": "Ok"}.get(result, result)
     if got != exp:
         return real, "callbacks %s, protocol demands %s" % (got, exp)
